@@ -10,6 +10,7 @@ touch their argument only through comparisons with constants/parameters.
 
 Nothing here runs lace: only expression trees extracted from MIR are evaluated.
 """
+import re
 from .facts import callee_of, op_local, place_is_local, const_int
 
 MASKS = {"u8": 8, "u16": 16, "u32": 32, "u64": 64, "usize": 64, "i8": 8, "i16": 16, "i32": 32, "i64": 64, "isize": 64,
@@ -48,6 +49,9 @@ def in_range(v, ty):
     return 0 <= v < (1 << bits)
 
 
+_STD_CONST = re.compile(r"core::num::<impl ([iu])(8|16|32|64|128|size)>::(MAX|MIN|BITS)$")
+
+
 def evaluate(e, env, checked=True):
     """Concrete value of an expression tree. env: dict with
        'args': {name_or_index: value}, 'calls': {callee_suffix: python function(args)->value},
@@ -73,7 +77,20 @@ def evaluate(e, env, checked=True):
                 sub_env["args"] = {}
                 sub_env["locals"] = {}
                 return evaluate(cf.local_expr(0, 12), sub_env, checked)
+        m = _STD_CONST.search(str(e[1]))
+        if m:
+            bits, signed = int(m.group(2)) if m.group(2) != "size" else 64, m.group(1) == "i"
+            lo, hi = (-(1 << (bits - 1)), (1 << (bits - 1)) - 1) if signed else (0, (1 << bits) - 1)
+            return {"MAX": hi, "MIN": lo, "BITS": bits}[m.group(3)]
         raise Unknown("uneval %s" % (e[1],))
+    if k == "unknown":
+        # an associated constant of a primitive type the extractor left symbolic (`u16::MAX` as a range-pattern bound)
+        m = re.match(r"^(?:const )?([iu])(8|16|32|64|128|size)::(MAX|MIN|BITS)(?:_[iu]\w+)?$", str(e[1]).strip())
+        if m:
+            bits, signed = int(m.group(2)) if m.group(2) != "size" else 64, m.group(1) == "i"
+            lo, hi = (-(1 << (bits - 1)), (1 << (bits - 1)) - 1) if signed else (0, (1 << bits) - 1)
+            return {"MAX": hi, "MIN": lo, "BITS": bits}[m.group(3)]
+        raise Unknown("unknown %s" % (e[1],))
     if k == "arg":
         a = env.get("args", {})
         if e[2] in a:
